@@ -195,7 +195,15 @@ def replay(prop, o, features, timeout, extra_env=None):
            "--harness-timeout", f"{timeout}s", "--exact", "--harness", _qual(o)]
     env = _env()
     env.update(extra_env or {})
-    p = subprocess.run(cmd, cwd=d, env=env, stdout=subprocess.PIPE, stderr=subprocess.STDOUT, preexec_fn=_limit)
+    mem = o.get("mem_gb", MEM_LIMIT_GB)
+
+    def _lim(mem=mem):
+        lim = mem * (1 << 30)
+        try:
+            resource.setrlimit(resource.RLIMIT_AS, (lim, lim))
+        except Exception:
+            pass
+    p = subprocess.run(cmd, cwd=d, env=env, stdout=subprocess.PIPE, stderr=subprocess.STDOUT, preexec_fn=_lim)
     out = p.stdout.decode(errors="replace")
     # Kani also emits playback tests for satisfied cover! witnesses; only failing checks are replayed
     blocks = [b for b in re.findall(r"```\s*\n(.*?)```", out, re.S) if "#[test]" in b and "Check for `cover`" not in b]
